@@ -26,7 +26,8 @@ type StepSpec struct {
 	OutLen     int      `json:"outLen,omitempty"`
 	ErrLen     int      `json:"errLen,omitempty"`
 	Output     bool     `json:"output,omitempty"` // the step captures its stdout into an output variable
-	// Redirect: 0 none, 1 stdout: file, 2 stderr: file, 3 both (two files), 4 both into the SAME file
+	// Redirect: 0 none, 1 stdout: file, 2 stderr: file, 3 both (two files), 4 both into the SAME file,
+	// 5 stdout: /dev/null, 6 stdout and stderr: /dev/null
 	Redirect int `json:"redirect,omitempty"`
 }
 
@@ -224,7 +225,7 @@ func Gen(t *rapid.T, o GenOpts) Case {
 		s.OutLen = rapid.SampledFrom([]int{0, 0, 0, 7, 60, 4095, 4096, 4097, 6000}).Draw(t, "outLen")
 		s.Output = rapid.IntRange(0, 3).Draw(t, "output") == 0
 		if o.Redirects && !s.SetupFail {
-			s.Redirect = rapid.SampledFrom([]int{0, 0, 0, 0, 1, 2, 3, 4}).Draw(t, "redirect")
+			s.Redirect = rapid.SampledFrom([]int{0, 0, 0, 0, 1, 2, 3, 4, 5, 6}).Draw(t, "redirect")
 		}
 		if s.OutLen > 0 && rapid.Bool().Draw(t, "hasErr") {
 			s.ErrLen = rapid.SampledFrom([]int{5, 300, 4100}).Draw(t, "errLen")
